@@ -136,7 +136,19 @@ def run(ctx):
         progs.append((prog, mode, env, random.Random(rnd.randrange(1 << 30))))
     with ThreadPoolExecutor(max_workers=max(2, common.NCPU // 2)) as ex:
         fut_enum = ex.submit(run_enum, ctx, "enum", args)
-        fut_e2e = [ex.submit(filter_e2e.run_program, r, ctx.work, prog, mode, env) for prog, mode, env, r in progs]
+        endings = [None, "raise", "exit3", "exit0"]
+        fut_e2e = [ex.submit(filter_e2e.run_program, r, ctx.work, prog, mode, env,
+                             endings[prog["idx"] % 4] if not any(f.name == "trace_types" for f in prog["fns"]) else None,
+                             mode != "run-default" and prog["idx"] % 2 == 1)
+                   for prog, mode, env, r in progs]
+        # one file loaded twice (as __main__ and under its own name), the same functions called in both copies
+        base = len(progs)
+        dl = [("main-first", "run-custom", True), ("module-first", "run-custom", True), ("interleaved", "run-default", True),
+              ("main-first", "run-default", True), ("module-first", "run-default", False)]
+        if not quick:
+            dl += [("interleaved", "run-custom", True), ("module-first", "run-default", True), ("main-first", "run-custom", False)]
+        fut_e2e += [ex.submit(filter_e2e.run_double_load, ctx.work, base + k, order, mode, absolute)
+                    for k, (order, mode, absolute) in enumerate(dl)]
         enum = fut_enum.result()
         e2e = [f.result() for f in fut_e2e]
 
@@ -168,7 +180,10 @@ def run(ctx):
                            + (f" [{c['note']}]" if c.get("note") else ""))
             # an answer that contradicts the path specification while another code object of the same file (or the
             # same code object asked first) gets the right one: the lru_cache keyed on the code object
-            rec["finding"] = KF_CACHE
+            if c["kind"] == "env-history":
+                rec["env_history"] = c["env_history"]
+            else:
+                rec["finding"] = KF_CACHE
             failures.append(rec)
         else:
             rec["what"] = f"model/harness disagreement (verdict {code}) on co_filename={c['raw']!r} env={c['env']!r}"
@@ -206,7 +221,13 @@ def run(ctx):
             rec["what"] = (f"{c['cmd']} (MONKEYTYPE_TRACE_MODULES={c['env']!r}, custom filter admits ids {c['admitted']}): rows in the "
                            f"store {c['rows']} are not the completed calls of admitted functions outside __main__; functions: "
                            + "; ".join(f"{f['id']}={f['module']}.{f['qualname']}" for f in c["funcs"])
-                           + f"; top-level calls {c['top']}")
+                           + f"; top-level calls {c['top']}"
+                           + (f"; nested monkeytype.trace() sessions {c['sessions']} (store order: inner, outer)" if c.get("sessions") else "")
+                           + (f"; the filter answers yes/no as {c['filter_answers']}" if c.get("filter_answers") else "")
+                           + (f"; the traced block is left by {c['ending']}" if c.get("ending") else "")
+                           + ("; the config's store queues the batch objects and writes them at the end" if c.get("deferred_store") else "")
+                           + (f"; one file loaded twice (as __main__ and under its own name), calls in order {c['double_load']}"
+                              if c.get("double_load") else ""))
             if c["admitted"] is not None:         # readable hint only; the verdict above is Coq's
                 by_row = {(f["module"], f["qualname"]): f for f in c["funcs"]}
                 wrong = sorted({f"{m}.{q}" for m, q in map(tuple, c["rows"])
@@ -226,7 +247,7 @@ def run(ctx):
             mismatches.append(rec)
 
     # self-contained inputs first (the driver reports the first few)
-    twins = [r for r in failures if r.get("kind") == "twin" and r.get("primed_by")]
+    twins = [r for r in failures if (r.get("kind") == "twin" and r.get("primed_by")) or r.get("kind") == "env-history"]
     e2e_f = [r for r in failures if r.get("stream") == "end-to-end"]
     rest = [r for r in failures if r not in twins and r not in e2e_f]
     failures = twins[:2] + e2e_f[:2] + twins[2:] + e2e_f[2:] + rest
@@ -246,6 +267,11 @@ def run(ctx):
     dist["e2e_rows"] = sum(len(c["rows"]) for c in ecases)
     dist["e2e_modes"] = {m: sum(1 for c in ecases if c["mode"] == m) for m in ("run-custom", "trace-custom", "run-default")}
     dist["tracer_still_skips_co_name_trace_types"] = skips_name
+    dist["e2e_nested_sessions"] = sum(1 for c in ecases if c.get("sessions"))
+    dist["e2e_endings"] = {str(e): sum(1 for c in ecases if c.get("ending") == e) for e in (None, "raise", "exit0", "exit3")}
+    dist["e2e_deferred_store"] = sum(1 for c in ecases if c.get("deferred_store"))
+    dist["e2e_double_load"] = {o: sum(1 for c in ecases if c.get("double_load") == o) for o in ("main-first", "module-first", "interleaved")}
+    dist["e2e_filter_answer_styles"] = {st: sum(1 for c in ecases if c.get("filter_answers") == st) for st in filter_e2e.STYLES}
     shared = [(c, f) for c in ecases for f in c["funcs"]
               if f["module"] != "__main__" and sum(1 for g in c["funcs"] if g["module"] == f["module"] and g["co_name"] == f["co_name"]) > 1]
     dist["e2e_functions_sharing_a_bare_name_in_one_file"] = len(shared)
@@ -273,9 +299,13 @@ def run(ctx):
                 "dangling and looping symlinks and symlinks into the stdlib, synthetic and edge names; each under "
                 "MONKEYTYPE_TRACE_MODULES unset and allow-lists of 0..3 names (lru_cache cleared in between; per file all code "
                 f"objects when unset, {'up to 4' if quick else 'all'} per allow-list); identical code compiled under a library and a user "
-                "file name asked in both orders; random log/flush sequences over 14 module names into the real CallTraceStoreLogger; "
+                "file name asked in both orders; one process in which MONKEYTYPE_TRACE_MODULES runs through several non-empty values, back and "
+                "unset with no cache clearing, the same files judged at every step against the value in force; random log/flush sequences over 14 module names into the real CallTraceStoreLogger; "
                 "generated programs (call DAG over a script and two modules; methods `run` of two classes, module functions and nested "
-                "functions sharing a bare name within one file, custom filters by co_qualname deciding differently for them) through `monkeytype run` / monkeytype.trace(config) "
+                "functions sharing a bare name within one file, custom filters by co_qualname deciding differently for them and answering yes/no as bool / int / str / None / "
+                "re.Match / list; nested monkeytype.trace() sessions; traced blocks left normally, by sys.exit(0/3) or by an exception after the calls; "
+                "configs whose store queues the batch object and writes it when asked at the end; one file loaded twice, as __main__ "
+                "and under its own name, the same functions called in both copies in three orders) through `monkeytype run` / monkeytype.trace(config) "
                 "with custom filters over random subsets, DefaultConfig and allow-lists into a SQLite store. Evaluations = real "
                 "filter calls + logger cases + programs; non-trivial = distinct (file, allow-list, answer) cases whose path has more "
                 "than two components + distinct logger cases + programs",
@@ -306,9 +336,32 @@ print("asked alone  :", target, "->", default_code_filter(fn(target)))
 '''
 
 
+REPLAY_HISTORY = r'''
+import json, os, sys
+from monkeytype.config import default_code_filter
+p = json.load(open(sys.argv[1]))
+code = compile("def f(x):\n    return x\n", p["co_filename"], "exec")
+default_code_filter.cache_clear()
+for env in p["env_history"]:
+    if env is None: os.environ.pop("MONKEYTYPE_TRACE_MODULES", None)
+    else: os.environ["MONKEYTYPE_TRACE_MODULES"] = env
+    print("MONKEYTYPE_TRACE_MODULES =", repr(env), "->", default_code_filter(code))
+default_code_filter.cache_clear()
+print("asked afresh under the last value ->", default_code_filter(code))
+'''
+
+
 def replay(ctx, payload):
     """re-run one stored case against the implementation"""
     print("what:", payload.get("what"))
+    if payload.get("stream") == "default_code_filter" and payload.get("env_history"):
+        path = os.path.join(ctx.work, "payload.json")
+        json.dump(payload, open(path, "w"), default=str)
+        p = subprocess.run([common.PY, "-c", REPLAY_HISTORY, path], env=common.sub_env(), capture_output=True, text=True, cwd=ctx.work)
+        print(p.stdout + p.stderr[-800:])
+        print("model / specification: the answer is the one for the value in force at the time of the call "
+              "(Props/C17.v default_filter_spec); term:", payload.get("term"))
+        return 0
     if payload.get("stream") == "default_code_filter":
         path = os.path.join(ctx.work, "payload.json")
         json.dump(payload, open(path, "w"), default=str)
